@@ -610,14 +610,18 @@ def r18_3(ctx):
 def r18_4(ctx):
     g = ctx.facts.buildgraph
     jf = set(g.get("serde_json", {}).get("features", []))
-    ctx.ob("serde_json:no-unbounded_depth", "unbounded_depth" not in jf, "serde_json", f"features {sorted(jf)}")
+    bad = []
+    for crate in (ctx.lib, ctx.bin):
+        for b in crate.bodies:
+            for bb, t in b.calls():
+                if (fn_of(t) or {}).get("name") in ("disable_recursion_limit",):
+                    bad.append(site(b, bb))
+    # serde_json's `unbounded_depth` feature only adds the `disable_recursion_limit` method (and a flag that starts out
+    # false): the feature by itself changes nothing, the call is what removes the limit
+    ud = "unbounded_depth" in jf
+    ctx.ob("serde_json:no-unbounded_depth", not ud or not bad, "serde_json", f"features {sorted(jf)}" + (" (unbounded_depth is enabled but nothing calls disable_recursion_limit: the limit of 128 stays in force)" if ud and not bad else ""))
     tf = set(g.get("toml_edit", {}).get("features", []))
     ctx.ob("toml_edit:no-unbounded", "unbounded" not in tf, "toml_edit", f"features {sorted(tf)}")
-    bad = []
-    for b in ctx.lib.bodies:
-        for bb, t in b.calls():
-            if (fn_of(t) or {}).get("name") in ("disable_recursion_limit",):
-                bad.append(site(b, bb))
     ctx.ob("no-disable_recursion_limit", not bad, "lib", "no parser has its recursion limit disabled" if not bad else f"recursion limit disabled at {bad}")
 
 
@@ -674,7 +678,9 @@ def r18_5(ctx):
                 ctx.ob(f"error-from-parser:{body.name}", ok, sup.site(node), "the error yielded is the parser poll's error (wrapped)" if ok else "the chunker yields an error of its own making: input the parsers accept is rejected on the reader path only")
         # `poll().map_err(wrap)?`: the residual handed on is the poll's own result
         t = body.blocks[node[1]]["term"]
-        if t["k"] == "call" and (fn_of(t) or {}).get("def") == "std::ops::FromResidual::from_residual" and t["args"] and "std::io::Error" in body.local_ty(t["dest"]["l"]):
+        res_ty = body.local_ty(t["args"][0]["p"]["l"]) if t["k"] == "call" and t.get("args") and is_place(t["args"][0]) and not t["args"][0]["p"]["pr"] else ""
+        if t["k"] == "call" and (fn_of(t) or {}).get("def") == "std::ops::FromResidual::from_residual" and t["args"] and "std::io::Error" in body.local_ty(t["dest"]["l"]) and not res_ty.startswith("std::option::Option<std::convert::Infallible"):
+            # (a `?` on an Option only hands on "nothing yet", not an error)
             n += 1
             tr = strace(sup, node, t["args"][0], extra=("std::ops::Try::branch", "std::result::Result::<T, E>::map_err", "std::result::Result::<T, E>::or_else"))
             ok = bool(tr.origin and tr.origin[0] == "call" and any(tr.origin[2] is x for x in poll_terms))
